@@ -25,6 +25,7 @@ Print Assumptions C20_likely_below.
     returned stays; the same pair gets the same path, different pairs different
     paths; every path is above 2^63, hence never a compact encoding. *)
 Theorem C20_fallback : forall keys sched sched2 i j k k' r r',
+  N.of_nat (length sched + length sched2) < 2 ^ 63 ->     (* fewer than 2^63 steps, hence allocations: nextQid (uint64, modelled with wrap) stays below 2^64 *)
   let s := frun (finit keys) sched in
   let s2 := frun s sched2 in
   nth_error (f_thr s) i = Some (FDone k r) ->
@@ -37,6 +38,7 @@ Print Assumptions C20_fallback.
     lookups of any pairs (likely or not): one path per pair for good, and
     distinct pairs never share a path (compact or allocated) *)
 Theorem C20_local_stable_injective : forall h1 h2 d i d' i' r r' t1 n1 t2 n2 t3 n3 t4 n4,
+  N.of_nat (length h1 + length h2) + 2 < 2 ^ 63 ->        (* fewer than 2^63 calls *)
   d < two64 -> i < two64 -> d' < two64 -> i' < two64 ->
   lrun [] next0 h1 = (t1, n1) -> local_to_qid t1 n1 d i = (r, t2, n2) ->
   lrun t2 n2 h2 = (t3, n3) -> local_to_qid t3 n3 d' i' = (r', t4, n4) ->
@@ -58,6 +60,7 @@ Proof. exact local_to_qid_is_run. Qed.
     same (Mapper, source path) gets the same path, different ones different
     paths, never path 0 *)
 Theorem C20_mapper : forall reqs sched sched2 i j m k r m' k' r',
+  N.of_nat (length sched + length sched2) < two64 ->      (* fewer than 2^64 steps: PathGenerator.uids (uint64, modelled with wrap) does not wrap *)
   let s := crun true (cinit reqs) sched in
   let s2 := crun true s sched2 in
   nth_error (c_thr s) i = Some (MDone m k r) ->
@@ -69,6 +72,7 @@ Print Assumptions C20_mapper.
 (** the lock discipline: never two calls between Lock and Unlock of one Mapper
     (so [paths] is never accessed concurrently) *)
 Theorem C20_mapper_mutex : forall reqs sched i j p p' m,
+  N.of_nat (length sched) < two64 ->
   let s := crun true (cinit reqs) sched in
   nth_error (c_thr s) i = Some p -> nth_error (c_thr s) j = Some p' ->
   holds p = Some m -> holds p' = Some m -> i = j.
@@ -77,6 +81,7 @@ Print Assumptions C20_mapper_mutex.
 
 (** sequential histories, Mappers on several generators, type and version kept *)
 Theorem C20_mapper_seq : forall h1 h2 m q r s1 m' q' r' s2,
+  N.of_nat (length h1 + length h2) + 2 < two64 ->         (* fewer than 2^64 QIDFor calls *)
   qid_for (run_history m_init h1) m q = (r, s1) ->
   qid_for (run_history s1 h2) m' q' = (r', s2) ->
   (m' = m -> q_path q' = q_path q -> q_path r' = q_path r) /\
@@ -84,6 +89,11 @@ Theorem C20_mapper_seq : forall h1 h2 m q r s1 m' q' r' s2,
   0 < q_path r /\ q_type r = q_type q /\ q_version r = q_version q.
 Proof. exact mapper_stable_injective. Qed.
 Print Assumptions C20_mapper_seq.
+
+(** what the bounds are for: at the bound the uint64 counters wrap, and a wrapped
+    fallback counter hands out paths below 2^63 (inside the compact range) *)
+Theorem C20_wrap_needs_bound : inc64 (two64 - 1) = 0 /\ fst (fst (local_to_qid [] (two64 - 1) 0x100000801 7)) = 0.
+Proof. vm_compute. split; reflexivity. Qed.
 
 (** what the fixes repaired *)
 Theorem C20_mapper_unlocked_refuted :
